@@ -117,17 +117,23 @@ theorem typed_selected_attribute (c : TCtx) (env : Env) (kl a : String) (ci : Cl
     (hc : c.cls kl = some ci) : typeOf c env (some kl) (.field .selected a) = ci.attrs.lookup a := by
   simp [typeOf, attrTy, selClass, fieldRow, hc]
 
-/-- `<array>.length`: with no class behind the root (and the root not `selected`) the name `length` is the array
-    length, an integer -/
-theorem typed_array_length (c : TCtx) (env : Env) (sel : Option String) (n : String)
-    (h : tyClass c (typeOf c env sel (.var n)) = none) :
+/-- `<array>.length`: the root is a DECLARED (visible) variable whose type is not an instance reference; then the
+    name `length` is the array length (V_ALV, integer).
+    Guards: `hv` excludes an undeclared root — there the code raises ("Unknown transient", prebuild.py
+    `accept_VariableAccessNode`) while the totalised `typeOf` would still answer; the model has no structured types
+    (`TCtx` carries none), so a root of structure type with a member named `length` — where the code builds a V_MVL
+    typed as the member (prebuild.py `accept_FieldAccessNode`, S_MBR look-up before the length case) — is outside
+    this equation: bodies with structure members are judged by the direct predicate only (harness family `struct`). -/
+theorem typed_array_length (c : TCtx) (env : Env) (sel : Option String) (n : String) (v : VarInfo)
+    (hv : findVar c env n = some v) (h : tyClass c v.ty = none) :
     typeOf c env sel (.field (.var n) "length") = some "integer" ∧
     kindOf c env sel (.field (.var n) "length") = "V_ALV" := by
+  have ht : typeOf c env sel (.var n) = v.ty := by simp [typeOf, hv]
   constructor
   · show attrTy (tyClass c (typeOf c env sel (.var n))) "length" = _
-    rw [h]; rfl
+    rw [ht, h]; rfl
   · show (fieldRow (tyClass c (typeOf c env sel (.var n))) "length").1 = _
-    rw [h]; rfl
+    rw [ht, h]; rfl
 
 /-- a variable read has the type recorded for the variable … -/
 theorem typed_variable (c : TCtx) (env : Env) (sel : Option String) (n : String) (v : VarInfo)
@@ -246,6 +252,13 @@ def demoT : TCtx :=
     consts := [], params := [("pb", "boolean")], selfKl := none }
 
 example : GenericFree demoT := rfl
+
+/-- `typed_array_length` APPLIED: `arr` is a declared integer array variable -/
+example :
+    typeOf demoT [[("arr", ⟨.trn, some "integer", ""⟩)]] none (.field (.var "arr") "length") = some "integer" ∧
+    kindOf demoT [[("arr", ⟨.trn, some "integer", ""⟩)]] none (.field (.var "arr") "length") = "V_ALV" :=
+  typed_array_length demoT _ none "arr" ⟨.trn, some "integer", ""⟩ rfl rfl
+
 
 def demoB : Block :=
   .cons (.selFrom "any" "d" "DOG")
